@@ -1273,6 +1273,24 @@ fn one_case(c: &mut Ctx, rt: &tokio::runtime::Runtime, fam: &str, idx: u64) {
         if msgs.len() > 1 {
             k.c.count("sender_multi_message_streams", 1);
         }
+        // octets reserved on the request (for a TSIG record or an OPT record that a later layer
+        // appends) are left free in every response over a stream too, unless one record alone does
+        // not fit into what remains
+        #[cfg(feature = "crypto")]
+        let unsigned = tsig_key.is_none();
+        #[cfg(not(feature = "crypto"))]
+        let unsigned = true;
+        if udp.is_none() && reserve > 0 && unsigned {
+            let room = 65535usize - reserve as usize;
+            for m in &msgs {
+                let nrec = u16::from_be_bytes([m[6], m[7]]) as usize;
+                if m.len() > room && nrec > 1 {
+                    k.viol(&format!("sender:{}:reserved-octets-used", kind), &format!("{} octets were reserved on the request, a response over a stream has {} octets and {} records (room for {})", reserve, m.len(), nrec, room));
+                    break;
+                }
+            }
+            k.c.count("sender_streams_with_reserved_octets", 1);
+        }
         let pre_model = if kind == "ixfr" { content(&vs[from]) } else { Content::new() };
         let Some(recs) = flatten(&msgs) else {
             k.viol(&format!("sender:{}:unparsable", kind), "the reference walker cannot parse a response of the XFR middleware");
@@ -1465,7 +1483,7 @@ pub fn run(c: &mut Ctx) {
         one_case(c, &rt, fam, idx);
     }
     if !c.replaying() {
-        for key in ["commit_diffs_checked", "end_to_end_full", "end_to_end_incremental", "repackaged_full", "repackaged_incremental", "multi_step_incremental", "transfers_accepted", "transfers_rejected", "sender_multi_message_streams", "aftermath_transfers_checked"] {
+        for key in ["commit_diffs_checked", "end_to_end_full", "end_to_end_incremental", "repackaged_full", "repackaged_incremental", "multi_step_incremental", "transfers_accepted", "transfers_rejected", "sender_multi_message_streams", "aftermath_transfers_checked", "sender_streams_with_reserved_octets"] {
             c.floor(key, 5);
         }
     }
